@@ -567,7 +567,9 @@ class Evaluator(abc.ABC):
                 self.process_local_tasks_done(self._tasks_done)
 
                 for job in self.jobs:
-                    if job.status in [JobStatus.READY, JobStatus.RUNNING]:
+                    # A job whose task was cancelled while in CANCELLING (timeout expired, run-function not
+                    # yet returned) must be reported like the ones still READY or RUNNING
+                    if job.status in [JobStatus.READY, JobStatus.RUNNING, JobStatus.CANCELLING]:
                         job.status = JobStatus.CANCELLED
 
                         if isinstance(job, HPOJob):
